@@ -22,6 +22,7 @@ import (
 	"encoding/json"
 	"fmt"
 	"reflect"
+	"strconv"
 	"strings"
 
 	"github.com/Masterminds/semver"
@@ -436,6 +437,64 @@ func depthLimitOracle(res *hx.Result) {
 						fmt.Sprintf("template `total: @(%s)` with a chain of %d %s (the longest Parse accepts: %d) evaluates to %q; after %s, which reports no error, the template evaluates to %q err=%v panic=%q",
 							ellipsis(sh.build(n), 40), n, sh.name, lo, ellipsis(a, 40), tx.name, ellipsis(b, 40), be, bp))
 				}
+			}
+		}
+	}
+}
+
+// R5 (review 2, N2): evaluation has a work budget (values are charged at their size as text). "Printing and re-parsing
+// evaluates to the same value or fails alike" must hold at that boundary too: for expressions whose printed form
+// differs from the source only in how a number is WRITTEN (trailing zeros, which printing drops), the longest text
+// operand with which the source still evaluates is found by search, and around it source and printed form must
+// evaluate alike.
+func workBudgetOracle(res *hx.Result) {
+	shapes := []struct {
+		name  string
+		build func(n int) string
+	}{
+		{"concatenation with 1.5000000000", func(n int) string {
+			a := strconv.Quote(strings.Repeat("a", n))
+			return a + " & " + a + " & " + a + " & 1.5000000000"
+		}},
+		{"concatenation with 00000000002", func(n int) string {
+			a := strconv.Quote(strings.Repeat("a", n))
+			return "0.250000000000000 & " + a + " & " + a + " & " + a
+		}},
+	}
+	eval := func(src string) (evalOut, string, bool) {
+		e, err := excellent.Parse(src, nil)
+		if err != nil {
+			return evalOut{}, "", false
+		}
+		out, _ := evalExpr(e, map[string]types.XValue{})
+		return out, e.String(), true
+	}
+	for _, sh := range shapes {
+		lo, hi := 1, 400000 // lo evaluates, hi does not
+		if o, _, ok := eval(sh.build(lo)); !ok || o.isErr {
+			res.Dist("work-budget:" + sh.name + ":small-case-fails")
+			continue
+		}
+		if o, _, ok := eval(sh.build(hi)); !ok || !o.isErr {
+			res.Dist("work-budget:" + sh.name + ":no-limit-found")
+			continue
+		}
+		for hi-lo > 1 {
+			mid := (lo + hi) / 2
+			if o, _, _ := eval(sh.build(mid)); !o.isErr {
+				lo = mid
+			} else {
+				hi = mid
+			}
+		}
+		for n := lo - 1; n <= lo+3; n++ {
+			res.OracleChecks++
+			a, printed, _ := eval(sh.build(n))
+			b, _, okB := eval(printed)
+			if !okB || !sameValue(a, b) {
+				res.Fail("roundtrip:eval-differs:number-scale-charged-to-work-budget", map[string]any{"shape": sh.name, "operand_bytes": n},
+					fmt.Sprintf("%s with text operands of %d bytes (the longest with which the source evaluates: %d): source is an error=%v, its printed form `%s` parses=%v and is an error=%v",
+						sh.name, n, lo, a.isErr, ellipsis(printed[max(0, len(printed)-24):], 30), okB, b.isErr))
 			}
 		}
 	}
